@@ -307,5 +307,7 @@ def sorted_tests(suite_or_case, unpack_outer=False):
         raise ValueError(f"Duplicate test ids detected: {pformat(duplicates)}")
 
     tests = _flatten_tests(suite_or_case, unpack_outer=unpack_outer)
-    tests.sort()
+    # A custom suite without any tests has no id (None): sort those last rather
+    # than comparing None with str (or two suites with each other).
+    tests.sort(key=lambda item: (item[0] is None, item[0]))
     return unittest.TestSuite([test for (sort_key, test) in tests])
